@@ -17,7 +17,7 @@
    on the two dict loops (C24_bind_eq_given_dict_loops): __Pyx_ParseKeywordDict/DictToDict agree with
    the reference loop up to the error kind.  That obligation is only tested (correspondence run). *)
 From Coq Require Import List Bool Arith.
-From CyVerif Require Import Model.M_ArgBind Proof.P_ArgBind.
+From CyVerif Require Import Model.M_ArgBind Proof.P_ArgBind Proof.P_ArgBindDict.
 Import ListNotations.
 
 Theorem C24_bind_eq_partial : forall V vc pth s (c : call V),
@@ -60,6 +60,22 @@ Proof.
   repeat split. vm_compute. discriminate.
 Qed.
 Print Assumptions C24_duplicate_kwnames_refuted.
+
+(* error side of the two dict loops (the halves of parser_ok PDict that need no counting argument):
+   the duplicate test of __Pyx_ValidateDuplicatePosArgs is exact, and __Pyx_RejectUnknownKeyword
+   never falls through without an exception when a keyword is bad *)
+Theorem C24_dict_validate_dup_exact : forall V (kws : list (key * V)) names first,
+  NoDup names ->
+  validate_dup kws names first = existsb (fun kv => kw_dup names first (fst kv)) kws.
+Proof. exact validate_dup_exact. Qed.
+Print Assumptions C24_dict_validate_dup_exact.
+
+Theorem C24_dict_reject_unknown_blames : forall V (kws : list (key * V)) names first,
+  NoDup names -> all_str kws ->
+  existsb (fun kv => kw_bad names first true (fst kv)) kws = true ->
+  reject_unknown kws names first <> EImpossible.
+Proof. exact reject_unknown_blames. Qed.
+Print Assumptions C24_dict_reject_unknown_blames.
 
 Example C24_nonvacuous :
   let s := mkSig [mkParam 1 false] [mkParam 2 false; mkParam 3 true] true [mkParam 4 true; mkParam 5 false] true true in
